@@ -150,7 +150,7 @@ class Gen:
             pool = [s for s in self.sources if s not in c["ins"]]
             if pool: c["ins"].append(r.choice(pool))
         elif k == "remove":
-            del d["cmds"][n]; d["order"].remove(n)
+            if len(d["cmds"]) >= 2: del d["cmds"][n]; d["order"].remove(n)      # (an empty `commands:` section is a loader topic, C19)
         elif k == "flag":
             f = r.choice(["ami", "aood"]); c[f] = not c[f]
         elif k == "signature":
